@@ -76,6 +76,8 @@ func (g *gen) fan() {
 			opts = append(opts, fanspeedpb.WithInitialFanSpeed(init))
 			cfg["initial"] = jsFan(init)
 		}
+		opts, plain := g.sprinkle(opts, nil)
+		cfg["plain_options"] = plain
 		m := fanspeedpb.NewModel(opts...)
 		srv := fanspeedpb.NewModelServer(m)
 		psCoq := make([]string, len(presets))
@@ -119,6 +121,12 @@ func (g *gen) fan() {
 			// kind 4, 7: nothing set (besides direction)
 			viaRPC := relative || g.r.Bool()
 			reqCoq, reqJS := coqFan(req), jsFan(req) // before the call: the interceptor edits the request message
+			if !viaRPC && g.r.Chance(50) {
+				if g.fanMasked(m, presets, psCoq, cfg, &hist, req) {
+					break
+				}
+				continue
+			}
 			op := map[string]any{"op": "UpdateFanSpeed", "fan_speed": reqJS, "relative": relative, "rpc": viaRPC}
 			hist = append(hist, op)
 			replay := map[string]any{"config": cfg, "ops": append([]any{}, hist...)}
@@ -148,4 +156,36 @@ func (g *gen) fan() {
 				map[string]any{"config": cfg, "pre": jsFan(pre), "op": op, "returned": jsFan(ret), "error": errCode(err), "post": jsFan(post)}, tag)
 		}
 	}
+}
+
+var fanPaths = []string{"percentage", "preset", "preset_index", "direction"}
+
+// fanMasked: Model.UpdateFanSpeed with resource.WithUpdateMask over any subset of the four fields.
+func (g *gen) fanMasked(m *fanspeedpb.Model, presets []fanspeedpb.Preset, psCoq []string, cfg map[string]any, hist *[]any, req *traits.FanSpeed) (stop bool) {
+	if g.r.Chance(30) && len(presets) > 0 { // a request that names everything, consistent or not
+		req.Preset = presets[g.r.Intn(len(presets))].Name
+		req.PresetIndex = int32(g.r.Range(0, len(presets)))
+		req.Percentage = float32(g.r.Intn(101))
+	}
+	fm, in, bad := g.someMask(fanPaths)
+	reqCoq, reqJS := coqFan(req), jsFan(req)
+	op := map[string]any{"op": "Model.UpdateFanSpeed", "fan_speed": reqJS, "update_mask": jsMask(fm)}
+	*hist = append(*hist, op)
+	replay := map[string]any{"config": cfg, "ops": append([]any{}, (*hist)...)}
+	pre := m.FanSpeed()
+	var ret *traits.FanSpeed
+	var err error
+	if g.try("panic:fanspeedpb:update", replay, func() { ret, err = m.UpdateFanSpeed(req, resource.WithUpdateMask(fm)) }) {
+		return true
+	}
+	post := m.FanSpeed()
+	var obs, tag string
+	if err != nil {
+		obs, tag = vcoq.App("FErr", vcoq.Z(int64(status.Code(err)))), "fan.masked.error"
+	} else {
+		obs, tag = vcoq.App("FOk", coqFan(ret)), "fan.masked.ok"
+	}
+	g.add(vcoq.App("KFanMask", vcoq.List(psCoq), coqFan(pre), reqCoq, coqMaskOpt("mkFM", fm, in, bad), obs, coqFan(post)),
+		map[string]any{"config": cfg, "pre": jsFan(pre), "op": op, "returned": jsFan(ret), "error": errCode(err), "post": jsFan(post)}, tag)
+	return false
 }
